@@ -211,13 +211,24 @@ impl Context
             {
                 yaml.insert_str(0, Context::CACHE_EDIT_WARNING);
 
-                if let Err(e) = std::fs::write(cache_path, yaml)
+                /* Replace the lock file in one step: writing it in place would leave it empty
+                 * (truncated, not yet written) if the process died in between, and an empty lock
+                 * file makes the next run fall back to scanning the code, forgetting IDs of
+                 * statements that have since been deleted.
+                 */
+                let scratch_path = cache_path.with_extension("lock.tmp");
+
+                if let Err(e) = std::fs::write(&scratch_path, yaml)
+                    .and_then(|_| std::fs::rename(&scratch_path, &cache_path))
                 {
                     log::warn!(
                         "[ref: 33] Failed to write lock file {}: {}",
                         Context::CACHE_FILENAME,
                         e
                     );
+
+                    if std::fs::remove_file(&scratch_path).is_ok()
+                    {}
                 }
             },
             Err(e) => log::warn!(
